@@ -90,14 +90,41 @@ def _touches_handle0(code, depth=0):
 _COLLISION = 'taproot/nonnative/function-handle-0-of-the-lock-visible-to-the-scripts'
 
 
+_COLLISION_X = 'taproot/nonnative/cache-entry-X-of-the-lock-visible-to-the-scripts'
+
+
+def _touches_key_X(code, depth=0):
+    """an operand or pushed item equal to b'X' (the key under which the lock's DERIVE_POINT caches the tweak point)"""
+    try:
+        prog = R.decode(code)
+    except R.DecodeError:
+        return b'\x01X' in code
+
+    def walk(nodes):
+        for n in nodes:
+            if n[0] == 'i':
+                for x in n[2:]:
+                    if x == b'X' or (depth < 3 and isinstance(x, bytes) and len(x) >= 3 and _touches_key_X(x, depth + 1)):
+                        return True
+            else:
+                for x in n[1:]:
+                    if isinstance(x, list) and walk(x):
+                        return True
+        return False
+    return walk(prog)
+
+
 def _reclassify_handle0(fails, codes):
-    if not fails or not any(_touches_handle0(c) for c in codes):
+    if not fails:
+        return fails
+    new = _COLLISION if any(_touches_handle0(c) for c in codes) else (_COLLISION_X if any(_touches_key_X(c) for c in codes) else None)
+    if new is None:
         return fails
     out = []
     for sgn, det in fails:
         if sgn.startswith(('taproot/nonnative/script-path-verdict-differs-from-script', 'taproot/native-and-nonnative-verdicts-differ',
                            'taproot/native-and-nonnative-run-different-scripts')):
-            sgn = _COLLISION
+            sgn = new
         out.append((sgn, det))
     return out
 
